@@ -413,6 +413,12 @@ func (rs *runState) absorb(path string) bool {
 	sc := bufio.NewScanner(f)
 	sc.Buffer(make([]byte, 1<<20), 64<<20)
 	got := false
+	var last *summary // last checkpoint (used only when the final summary is missing)
+	defer func() {
+		if !got && last != nil {
+			rs.mergeSummary(last)
+		}
+	}()
 	for sc.Scan() {
 		line := sc.Bytes()
 		var head struct {
@@ -427,42 +433,50 @@ func (rs *runState) absorb(path string) bool {
 			if json.Unmarshal(line, &v) == nil {
 				rs.addViolation(&v)
 			}
+		case "ckpt":
+			var s summary
+			if json.Unmarshal(line, &s) == nil {
+				last = &s
+			}
 		case "sum":
 			var s summary
 			if json.Unmarshal(line, &s) == nil {
 				got = true
-				rs.mu.Lock()
-				rs.evals += s.Evals
-				for k, n := range s.Cells {
-					rs.cells[k] += n
-				}
-				for k, n := range s.Counters {
-					if k == "case_space" || strings.HasPrefix(k, "max_") {
-						if n > rs.counters[k] {
-							rs.counters[k] = n
-						}
-					} else {
-						rs.counters[k] += n
-					}
-				}
-				if len(rs.samples) < 6 {
-					for _, sm := range s.Samples {
-						if len(rs.samples) < 6 {
-							rs.samples = append(rs.samples, sm)
-						}
-					}
-				}
-				// total counts per key (the worker only writes the first few records)
-				for k, n := range s.ViolN {
-					if v, ok := rs.viols[s.Prop+"\x00"+k]; ok && n > 5 {
-						v.Count += n - 5
-					}
-				}
-				rs.mu.Unlock()
+				rs.mergeSummary(&s)
 			}
 		}
 	}
 	return got
+}
+
+func (rs *runState) mergeSummary(sp *summary) {
+	s := *sp
+	rs.mu.Lock()
+	defer rs.mu.Unlock()
+	rs.evals += s.Evals
+	for k, n := range s.Cells {
+		rs.cells[k] += n
+	}
+	for k, n := range s.Counters {
+		if k == "case_space" || strings.HasPrefix(k, "max_") {
+			if n > rs.counters[k] {
+				rs.counters[k] = n
+			}
+		} else {
+			rs.counters[k] += n
+		}
+	}
+	for _, sm := range s.Samples {
+		if len(rs.samples) < 6 {
+			rs.samples = append(rs.samples, sm)
+		}
+	}
+	// total counts per key (the worker only writes the first few records)
+	for k, n := range s.ViolN {
+		if v, ok := rs.viols[s.Prop+"\x00"+k]; ok && n > 5 {
+			v.Count += n - 5
+		}
+	}
 }
 
 var reGoroutine = regexp.MustCompile(`(?m)^goroutine \d+ (?:gp=\S+ m=\S+ (?:mp=\S+ )?)?\[([^\]]+)\]:`)
